@@ -2,17 +2,18 @@
    Gen.Config is regenerated from /repo on every run: the constants of config.py / _number_config.py (import), the documented
    ranges (docs/environment_variables.rst) and the COMPLETE behaviour table of the real set_decimal_config over
    (width, scale) in ({unset} U -5..45)^2 x every prior state of the module globals in `priors`.
-   `engine_config` is the model the engine is tied to (C30_model_is_code).  On the unchanged tree that is the faithful
-   `_impl` variant; the documented behaviour is `documented_config` (`_spec`).  After a repair of the engine switch
-   `engine_config` to set_decimal_config_spec: C30_model_is_code must then hold for it and the `_refuted` theorems go away. *)
+   `engine_config` is the model the engine is tied to (C30_model_is_code): since the repair of set_decimal_config in /repo
+   (3d3b9b9) that is the documented function `set_decimal_config_spec`.  `prefix_config` is the code as it was before the
+   repair; it is NOT tied to the tree and only carries the regression witnesses (theorems C30_prefix_...).
+   `engine_load` (how a literal becomes a DECIMAL value) is still the faithful `_impl` variant: see C30_load_rounds_to_scale_refuted. *)
 From Coq Require Import ZArith List Bool Lia QArith.
 Import ListNotations.
 From VTL Require Import Model.Config Proofs.ConfigP Gen.Config.
 Open Scope Z_scope.
 
 Definition K := code_consts.
-Definition engine_config := set_decimal_config_impl K.
-Definition documented_config := set_decimal_config_spec K.
+Definition engine_config := set_decimal_config_spec K.
+Definition prefix_config := set_decimal_config_prefix K.
 Definition D0 := defaults K.
 (* how the engine turns an input literal into a DECIMAL(w,s) value; after a repair: load_lit_spec *)
 Definition engine_load := load_lit_impl.
@@ -20,29 +21,42 @@ Definition documented_load := load_lit_spec.
 
 (* ---------------------------------------------------------------- the tie, checked by the kernel *)
 Definition row_ok (g : globals) (ew es : option Z) : bool :=
-  or3_eqb (code_table tab_both tab_unset g ew es) (Some (enc_result (engine_config ew es g))).
-Definition both_set (ew es : option Z) : bool := match ew, es with Some _, Some _ => true | _, _ => false end.
+  or4_eqb (code_table tab_both tab_unset g ew es) (Some (enc_result (engine_config ew es g))).
+
+(* one lookup per row with both variables set (valid under every prior), per-prior lookups for the others *)
+Definition check_row (ew es : option Z) : bool :=
+  match ew, es with
+  | Some w, Some s =>
+      match assoc_by (fun a b : Z * Z => (fst a =? fst b) && (snd a =? snd b)) (w, s) tab_both with
+      | Some row => forallb (fun g => r4_eqb (dec_row g row) (enc_result (engine_config ew es g))) priors
+      | None => forallb (fun g => row_ok g ew es) priors
+      end
+  | _, _ => forallb (fun g => row_ok g ew es) priors
+  end.
 
 Theorem C30_model_is_code : forall g ew es, In g priors -> In ew axis -> In es axis ->
   code_table tab_both tab_unset g ew es = Some (enc_result (engine_config ew es g)).
 Proof.
-  intros g ew es Hg Hw Hs. apply or3_eqb_eq.
-  destruct (both_set ew es) eqn:B.
-  - (* both variables set: neither the table nor the function looks at g *)
-    pose proof (sweep_cfg_sound [D0] axis (fun g ew es => if both_set ew es then row_ok g ew es else true)
-                  ltac:(vm_compute; reflexivity) D0 ew es (or_introl eq_refl) Hw Hs) as S.
-    cbv beta in S. rewrite B in S. simpl in S.
-    destruct ew as [w|], es as [s|]; try discriminate. exact S.
-  - pose proof (sweep_cfg_sound priors axis (fun g ew es => if both_set ew es then true else row_ok g ew es)
-                  ltac:(vm_compute; reflexivity) g ew es Hg Hw Hs) as S.
-    cbv beta in S. rewrite B in S. exact S.
+  intros g ew es Hg Hw Hs. apply or4_eqb_eq.
+  assert (S : forallb (fun ew => forallb (fun es => check_row ew es) axis) axis = true) by (vm_compute; reflexivity).
+  rewrite forallb_forall in S. specialize (S ew Hw). rewrite forallb_forall in S. specialize (S es Hs).
+  unfold check_row in S.
+  destruct ew as [w|], es as [s|];
+    try (rewrite forallb_forall in S; exact (S g Hg)).
+  unfold code_table.
+  destruct (assoc_by (fun a b : Z * Z => (fst a =? fst b) && (snd a =? snd b)) (w, s) tab_both) as [row|] eqn:E.
+  - rewrite forallb_forall in S. exact (S g Hg).
+  - rewrite forallb_forall in S. specialize (S g Hg). unfold row_ok, code_table in S. rewrite E in S. exact S.
 Qed.
 
-(* the domain of that table: unset and every integer -5..45 for each variable; the defaults are among the priors *)
+(* the domain of that table: unset and every integer -5..45 for each variable; the priors contain the defaults, every state
+   a single-variable setting can leave behind, and states only a misbehaving function could leave *)
 Theorem C30_table_domain :
   axis = None :: map Some (map (fun i => Z.of_nat i - 5) (seq 0 51)) /\ In D0 priors /\
-  forallb (fun g => existsb (fun ew => existsb (fun es => g_eqb (state_after (engine_config ew es D0)) g) axis) axis) priors = true.
-Proof. split; [vm_compute; reflexivity|]. split; [vm_compute; tauto | vm_compute; reflexivity]. Qed.
+  forallb (fun e => existsb (g_eqb (state_after (engine_config e None D0))) priors &&
+                    existsb (g_eqb (state_after (engine_config None e D0))) priors) axis = true /\
+  In (mkG 45 10) priors /\ In (mkG 28 3) priors.
+Proof. split; [vm_compute; reflexivity|]. split; [vm_compute; tauto|]. split; [vm_compute; reflexivity|]. split; vm_compute; tauto. Qed.
 
 (* the documented ranges are the constants of the code (both modules reading OUTPUT_NUMBER_SIGNIFICANT_DIGITS agree) *)
 Theorem C30_doc_ranges_are_code_constants :
@@ -54,76 +68,74 @@ Proof. vm_compute. repeat split. Qed.
 Lemma wfK : wf_consts K.
 Proof. vm_compute. repeat split; discriminate. Qed.
 
-(* ---------------------------------------------------------------- accepted iff documented (ALL integers) *)
+(* ---------------------------------------------------------------- accepted iff documented (ALL integers, any globals) *)
 Theorem C30_config_accept_iff_documented : forall (w s : Z) (g : globals),
-  accepted (documented_config (Some w) (Some s) g) = true <-> in_doc doc_width w /\ in_doc doc_scale s.
+  accepted (engine_config (Some w) (Some s) g) = true <-> in_doc doc_width w /\ in_doc doc_scale s.
 Proof. intros. exact (spec_accept_iff K (Some w) (Some s) g wfK). Qed.
 
 Theorem C30_config_unset_means_documented_default : forall (ew es : option Z) (g : globals),
-  documented_config ew es g =
-  documented_config (Some (from_env ew (d_default doc_width))) (Some (from_env es (d_default doc_scale))) g.
-Proof. intros. destruct ew, es; reflexivity. Qed.
+  engine_config ew es g =
+  engine_config (Some (from_env ew (d_default doc_width))) (Some (from_env es (d_default doc_scale))) g.
+Proof. intros. exact (spec_unset_is_default K ew es g). Qed.
 
-(* the code: no upper bound on the width (witness: width 45 under the default scale, from the defaults) *)
-Theorem C30_config_accept_iff_documented_refuted : exists (w s : Z) (g : globals), In g priors /\
-  ~ (accepted (engine_config (Some w) (Some s) g) = true <-> in_doc doc_width w /\ in_doc doc_scale s).
-Proof.
-  exists 45, 10, D0. split; [vm_compute; tauto|]. intros [H _].
-  assert (A : accepted (engine_config (Some 45) (Some 10) D0) = true) by (vm_compute; reflexivity).
-  destruct (H A) as [[E|[_ E]] _]; vm_compute in E; [discriminate | apply E; reflexivity].
-Qed.
-
-Theorem C30_config_accept_iff_documented_partial : forall (w s : Z) (g : globals),
-  accepted (engine_config (Some w) (Some s) g) = true <->
-  (w = d_disable doc_width \/ d_lo doc_width <= w) /\ in_doc doc_scale s.
-Proof. intros. exact (impl_accept_iff K (Some w) (Some s) g wfK). Qed.
-
-(* ---------------------------------------------------------------- out-of-range settings: documented error or raw DuckDB error *)
-Definition eff_w (w : Z) := eff (d_disable doc_width) (d_disable_means doc_width) w.
-Definition eff_s (s : Z) := eff (d_disable doc_scale) (d_disable_means doc_scale) s.
-
+(* out-of-range settings get the documented configuration error, naming the variable *)
 Theorem C30_out_of_range_rejected_with_config_error : forall (w s : Z) (g : globals),
   ~ (in_doc doc_width w /\ in_doc doc_scale s) ->
-  exists v, fst (run_config documented_config (Some w) (Some s) g) = CfgRejected v.
+  exists v, fst (run_config engine_config (Some w) (Some s) g) = CfgRejected v.
 Proof.
   intros w s g H. pose proof (C30_config_accept_iff_documented w s g) as A.
-  unfold run_config. destruct (documented_config (Some w) (Some s) g) as [g'|v g'] eqn:E; simpl in *.
+  unfold run_config. destruct (engine_config (Some w) (Some s) g) as [g'|v bad g'] eqn:E; simpl in *.
   - exfalso. apply H. apply A. reflexivity.
   - eauto.
 Qed.
 
-Theorem C30_out_of_range_rejected_with_config_error_refuted : exists (w s : Z) (g : globals), In g priors /\
-  ~ (in_doc doc_width w /\ in_doc doc_scale s) /\ fst (run_config engine_config (Some w) (Some s) g) = RawBinder.
+(* ---------------------------------------------------------------- the outcome does not depend on earlier runs *)
+Theorem C30_history_independent : forall ew es g1 g2,
+  verdict (engine_config ew es g1) = verdict (engine_config ew es g2) /\
+  fst (run_config engine_config ew es g1) = fst (run_config engine_config ew es g2).
 Proof.
-  exists 45, 10, D0. split; [vm_compute; tauto|]. split; [|vm_compute; reflexivity].
-  intros [[E|[_ E]] _]; vm_compute in E; [discriminate | apply E; reflexivity].
+  intros. pose proof (spec_history_independent K ew es g1 g2) as V. split; [exact V|].
+  unfold run_config. fold engine_config in V.
+  destruct (engine_config ew es g1) as [a|v b a], (engine_config ew es g2) as [a'|v' b' a']; simpl in V; try discriminate.
+  - injection V as <-. reflexivity.
+  - injection V as <- _. reflexivity.
 Qed.
 
-(* exactly when a raw DuckDB BinderException escapes (engine) *)
+(* a rejected setting leaves the globals alone; an accepted one publishes exactly the effective configuration *)
+Theorem C30_state_after_call : forall ew es g,
+  state_after (engine_config ew es g) =
+  if accepted (engine_config ew es g)
+  then mkG (eff (d_disable doc_width) (d_disable_means doc_width) (from_env ew (d_default doc_width)))
+           (eff (d_disable doc_scale) (d_disable_means doc_scale) (from_env es (d_default doc_scale)))
+  else g.
+Proof. intros. exact (spec_state K ew es g). Qed.
+
+(* ---------------------------------------------------------------- what still escapes as a raw DuckDB error *)
+Definition eff_w (w : Z) := eff (d_disable doc_width) (d_disable_means doc_width) w.
+Definition eff_s (s : Z) := eff (d_disable doc_scale) (d_disable_means doc_scale) s.
+
+(* exactly the documented settings whose width is smaller than the scale: DuckDB needs s <= w in DECIMAL(w,s) *)
 Theorem C30_raw_error_iff : forall (w s : Z) (g : globals),
   fst (run_config engine_config (Some w) (Some s) g) = RawBinder <->
-  (w = d_disable doc_width \/ d_lo doc_width <= w) /\ in_doc doc_scale s /\
-  (duckdb_max_width < eff_w w \/ eff_w w < eff_s s).
+  in_doc doc_width w /\ in_doc doc_scale s /\ eff_w w < eff_s s.
 Proof.
   intros w s g. rewrite run_config_raw_iff.
-  pose proof (C30_config_accept_iff_documented_partial w s g) as A.
-  pose proof (impl_both_set_state K w s g) as ST. fold engine_config in ST.
-  change (eff (c_disable K) (c_max_w K) w) with (eff_w w) in ST.
-  change (eff (c_disable K) (c_max_s K) s) with (eff_s s) in ST.
-  assert (R : forall a b, 6 <= a -> 6 <= b -> (decimal_type_ok a b = false <-> (duckdb_max_width < a \/ a < b))).
-  { intros a b Ha Hb. destruct (decimal_type_ok a b) eqn:T.
-    - apply decimal_type_ok_iff in T. split; [discriminate | lia].
-    - split; [intros _|reflexivity].
-      assert (N : ~ (1 <= a <= duckdb_max_width /\ 0 <= b <= a)) by (rewrite <- decimal_type_ok_iff, T; discriminate).
-      unfold duckdb_max_width in *. lia. }
-  assert (Bw : (w = d_disable doc_width \/ d_lo doc_width <= w) -> 6 <= eff_w w).
-  { unfold eff_w, eff. change (d_disable doc_width) with (-1). change (d_lo doc_width) with 6.
+  pose proof (C30_config_accept_iff_documented w s g) as A.
+  pose proof (C30_state_after_call (Some w) (Some s) g) as ST. simpl from_env in ST. fold (eff_w w) (eff_s s) in ST.
+  assert (Bw : in_doc doc_width w -> 6 <= eff_w w <= 38).
+  { unfold eff_w, eff, in_doc. change (d_disable doc_width) with (-1). change (d_lo doc_width) with 6. change (d_hi doc_width) with 38.
     change (d_disable_means doc_width) with 38. destruct (w =? -1) eqn:Q; [lia|]. apply Z.eqb_neq in Q. lia. }
   assert (Bs : in_doc doc_scale s -> 6 <= eff_s s).
   { unfold eff_s, eff, in_doc. change (d_disable doc_scale) with (-1). change (d_lo doc_scale) with 6.
     change (d_disable_means doc_scale) with 15. destruct (s =? -1) eqn:Q; [lia|]. apply Z.eqb_neq in Q. lia. }
-  destruct (engine_config (Some w) (Some s) g) as [g'|v g'] eqn:E; simpl in A, ST.
-  - subst g'. destruct (proj1 A eq_refl) as (Aw & As). specialize (R _ _ (Bw Aw) (Bs As)).
+  destruct (engine_config (Some w) (Some s) g) as [g'|v bad g'] eqn:E; simpl in A, ST.
+  - subst g'. destruct (proj1 A eq_refl) as (Aw & As). specialize (Bw Aw). specialize (Bs As).
+    assert (R : decimal_type_ok (eff_w w) (eff_s s) = false <-> eff_w w < eff_s s).
+    { destruct (decimal_type_ok (eff_w w) (eff_s s)) eqn:T.
+      - apply decimal_type_ok_iff in T. split; [discriminate | lia].
+      - split; [intros _|reflexivity].
+        assert (N : ~ (1 <= eff_w w <= duckdb_max_width /\ 0 <= eff_s s <= eff_w w)) by (rewrite <- decimal_type_ok_iff, T; discriminate).
+        unfold duckdb_max_width in *. lia. }
     split.
     + intros (g' & Hg & T). injection Hg as <-. simpl in T. apply R in T. tauto.
     + intros (_ & _ & T). eexists. split; [reflexivity|]. simpl. apply R. exact T.
@@ -131,58 +143,45 @@ Proof.
     assert (false = true) by (apply A; auto). discriminate.
 Qed.
 
-(* the documented ranges themselves allow settings DuckDB cannot realise: DECIMAL(w,s) needs s <= w *)
+(* so the documented ranges themselves allow settings DuckDB cannot realise (still open after the repair) *)
 Theorem C30_documented_ranges_allow_ill_formed_type : exists (w s : Z),
-  in_doc doc_width w /\ in_doc doc_scale s /\ forall g, fst (run_config documented_config (Some w) (Some s) g) = RawBinder.
+  in_doc doc_width w /\ in_doc doc_scale s /\ forall g, fst (run_config engine_config (Some w) (Some s) g) = RawBinder.
 Proof. exists 6, 10. split; [right; vm_compute; split; discriminate|]. split; [right; vm_compute; split; discriminate|]. reflexivity. Qed.
 
-Theorem C30_documented_default_scale_excludes_small_widths : forall (w : Z) (g : globals),
-  fst (run_config documented_config (Some w) None g) = RawBinder <-> 6 <= w < 10.
+Theorem C30_default_scale_excludes_small_widths : forall (w : Z) (g : globals),
+  fst (run_config engine_config (Some w) None g) = RawBinder <-> 6 <= w < 10.
 Proof.
-  intros w g. rewrite run_config_raw_iff.
-  pose proof (spec_accept_iff K (Some w) None g wfK) as A.
-  unfold documented_config in *. unfold set_decimal_config_spec in *. simpl from_env in *.
-  change (c_def_s K) with 10 in *. change (eff (c_disable K) (c_max_s K) 10) with 10 in *.
-  change (c_min_s K) with 6 in *. change (c_max_s K) with 15 in *. change (c_min_w K) with 6 in *. change (c_max_w K) with 38 in *.
-  change (c_disable K) with (-1) in *. simpl ((10 <? 6) || (10 >? 15)) in *. cbv iota in *.
-  unfold eff in *. unfold in_range in A.
-  destruct (w =? -1) eqn:Q.
-  - apply Z.eqb_eq in Q. subst w. simpl. split; [intros (g' & H & T); injection H as <-; vm_compute in T; discriminate | lia].
-  - apply Z.eqb_neq in Q.
-    destruct ((w <? 6) || (w >? 38)) eqn:R.
-    + split; [intros (? & ? & _); discriminate|]. intros. apply orb_true_iff in R. rewrite Z.ltb_lt, Z.gtb_lt in R. lia.
-    + apply orb_false_iff in R. rewrite Z.ltb_ge in R. destruct R as (R1 & R2).
-      assert (w <= 38) by (destruct (w >? 38) eqn:G; [discriminate | rewrite Z.gtb_ltb in G; apply Z.ltb_ge in G; lia]).
-      split.
-      * intros (g' & H0 & T). injection H0 as <-. simpl in T.
-        destruct (decimal_type_ok w 10) eqn:O; [discriminate|].
-        assert (~ (1 <= w <= duckdb_max_width /\ 0 <= 10 <= w)) by (rewrite <- decimal_type_ok_iff, O; discriminate).
-        unfold duckdb_max_width in *. lia.
-      * intros. eexists. split; [reflexivity|]. simpl.
-        destruct (decimal_type_ok w 10) eqn:O; [|reflexivity]. apply decimal_type_ok_iff in O. lia.
+  intros w g.
+  assert (E : run_config engine_config (Some w) None g = run_config engine_config (Some w) (Some 10) g) by reflexivity.
+  rewrite E. rewrite C30_raw_error_iff.
+  unfold in_doc, eff_w, eff_s, eff. change (d_disable doc_width) with (-1). change (d_lo doc_width) with 6. change (d_hi doc_width) with 38.
+  change (d_disable_means doc_width) with 38. change (d_disable doc_scale) with (-1). change (d_lo doc_scale) with 6.
+  change (d_hi doc_scale) with 15. change (d_disable_means doc_scale) with 15. simpl (10 =? -1).
+  destruct (w =? -1) eqn:Q; [apply Z.eqb_eq in Q | apply Z.eqb_neq in Q]; lia.
 Qed.
 
-(* ---------------------------------------------------------------- the outcome must not depend on earlier runs *)
-Theorem C30_history_independent : forall ew es g1 g2, documented_config ew es g1 = documented_config ew es g2.
-Proof. intros. apply spec_history_independent. Qed.
+(* ---------------------------------------------------------------- regression witnesses: the code before the repair *)
+(* it accepted any width >= 6 (witness 45), which then escaped as a raw BinderException *)
+Theorem C30_prefix_accepted_width_45 :
+  accepted (prefix_config (Some 45) (Some 10) D0) = true /\ ~ in_doc doc_width 45 /\
+  fst (run_config prefix_config (Some 45) (Some 10) D0) = RawBinder /\
+  fst (run_config engine_config (Some 45) (Some 10) D0) = CfgRejected VarWidth.
+Proof.
+  split; [reflexivity|]. split; [|split; reflexivity].
+  intros [E|[_ E]]; vm_compute in E; [discriminate | apply E; reflexivity].
+Qed.
 
-(* witnesses: after a rejected scale (3) / an out-of-range width (45) a run with both variables unset no longer gets the defaults *)
-Theorem C30_history_independent_refuted : exists ew es g1 g2, In g1 priors /\ In g2 priors /\
-  fst (run_config engine_config ew es g1) = CfgOk 28 10 /\ fst (run_config engine_config ew es g2) = CfgRejected VarScale.
-Proof. exists None, None, D0, (mkG 28 3). split; [vm_compute; tauto|]. split; [vm_compute; tauto|]. split; reflexivity. Qed.
+Theorem C30_prefix_accept_iff : forall (w s : Z) (g : globals),
+  accepted (prefix_config (Some w) (Some s) g) = true <->
+  (w = d_disable doc_width \/ d_lo doc_width <= w) /\ in_doc doc_scale s.
+Proof. intros. exact (prefix_accept_iff K (Some w) (Some s) g wfK). Qed.
 
-Theorem C30_history_independent_refuted_raw : exists g2, In g2 priors /\
-  g2 = state_after (engine_config (Some 45) None D0) /\ fst (run_config engine_config None None g2) = RawBinder.
-Proof. exists (mkG 45 10). split; [vm_compute; tauto|]. split; reflexivity. Qed.
-
-Theorem C30_history_independent_partial : forall w s g1 g2,
-  engine_config (Some w) (Some s) g1 = engine_config (Some w) (Some s) g2.
-Proof. intros. apply impl_history_independent_when_both_set. Qed.
-
-(* stickiness, exactly: with both variables unset the engine repeats the outcome of the previous run *)
-Theorem C30_unset_run_repeats_previous_outcome : forall ew es g,
-  engine_config None None (state_after (engine_config ew es g)) = engine_config ew es g.
-Proof. intros. apply impl_unset_repeats_previous. Qed.
+(* it was sticky: with both variables unset it repeated the outcome of the previous run, e.g. after a rejected scale 3 *)
+Theorem C30_prefix_sticky :
+  (forall ew es g, prefix_config None None (state_after (prefix_config ew es g)) = prefix_config ew es g) /\
+  fst (run_config prefix_config None None (state_after (prefix_config None (Some 3) D0))) = CfgRejected VarScale /\
+  fst (run_config engine_config None None (state_after (engine_config None (Some 3) D0))) = CfgOk 28 10.
+Proof. split; [intros; apply prefix_unset_repeats_previous|]. split; reflexivity. Qed.
 
 (* ---------------------------------------------------------------- loading Numbers into DECIMAL(w,s): v stands for v / 10^s *)
 (* the stored value is the input m / 10^e rounded to s decimals, half-way cases away from zero *)
@@ -267,17 +266,16 @@ Print Assumptions C30_model_is_code.
 Print Assumptions C30_table_domain.
 Print Assumptions C30_doc_ranges_are_code_constants.
 Print Assumptions C30_config_accept_iff_documented.
-Print Assumptions C30_config_accept_iff_documented_refuted.
-Print Assumptions C30_config_accept_iff_documented_partial.
+Print Assumptions C30_config_unset_means_documented_default.
 Print Assumptions C30_out_of_range_rejected_with_config_error.
-Print Assumptions C30_out_of_range_rejected_with_config_error_refuted.
+Print Assumptions C30_history_independent.
+Print Assumptions C30_state_after_call.
 Print Assumptions C30_raw_error_iff.
 Print Assumptions C30_documented_ranges_allow_ill_formed_type.
-Print Assumptions C30_documented_default_scale_excludes_small_widths.
-Print Assumptions C30_history_independent.
-Print Assumptions C30_history_independent_refuted.
-Print Assumptions C30_history_independent_partial.
-Print Assumptions C30_unset_run_repeats_previous_outcome.
+Print Assumptions C30_default_scale_excludes_small_widths.
+Print Assumptions C30_prefix_accepted_width_45.
+Print Assumptions C30_prefix_accept_iff.
+Print Assumptions C30_prefix_sticky.
 Print Assumptions C30_load_rounds_to_scale.
 Print Assumptions C30_load_rejects_overflow.
 Print Assumptions C30_load_rounds_to_scale_refuted.
@@ -285,3 +283,4 @@ Print Assumptions C30_load_rounds_to_scale_partial.
 Print Assumptions C30_sum_diff_exact.
 Print Assumptions C30_result_is_sum_of_loaded.
 Print Assumptions C30_no_overflow_except_18_38.
+Print Assumptions C30_overflow_possible_at_18_and_38.
